@@ -49,3 +49,6 @@ Proof. intros H. unfold s_add. destruct (s_mem k s) eqn:E; [exact H|].
   - rewrite in_app_iff. cbn. intros [Q|[Q|[]]]; [contradiction|]. apply Hk. now left.
   - apply IH; auto. intros Q. apply Hk. now right. Qed.
 Definition d_get {A} (k : nat) (dflt : A) (d : list (nat * A)) : A := match d_find k d with Some x => x | None => dflt end.
+(* outcome of a method that may raise: PyExn st = an exception, leaving the written fields in state st; PyOk x = normal end *)
+Inductive pyres (S A : Type) := PyOk (a : A) | PyExn (s : S).
+Arguments PyOk {S A} a. Arguments PyExn {S A} s.
